@@ -333,6 +333,11 @@ func c17Main(args []string) int {
 			jobs = append(jobs, sched.Job{Scenario: n, Preempt: pre, Data: -1, ShardI: s, ShardN: shards, BudgetS: budget})
 		}
 	}
+	totalBudget := 60.0
+	if common.Tier() == "thorough" {
+		totalBudget = 900
+	}
+	sched.SpreadBudget(jobs, totalBudget, *procs, 15)
 	tot := sched.RunAll(rep, jobs, []string{"C17", "worker"}, *procs)
 	rep.Set("states", len(tot.Outcomes))
 	rep.Set("transitions", int(tot.Steps))
